@@ -49,6 +49,7 @@ int  snoopy_output_socketoutput(char const *const, char const *const);
 int  snoopy_output_devlogoutput(char const *const, char const *const);
 int  snoopy_output_fileoutput(char const *const, char const *const);
 int  snoopy_util_file_getSmallTextFileContent(char const *const, char **);
+int  snoopy_configfile_load(char *);
 
 static char *empty_env[] = { NULL };
 static char TMPDIR_[512];
@@ -68,6 +69,14 @@ int getlogin_r(char *buf, size_t size) {
     if (strlen(g_login) + 1 > size) return ERANGE;
     strcpy(buf, g_login);
     return 0;
+}
+static int g_pw_fail = 0;
+#include <pwd.h>
+int getpwuid_r(uid_t uid, struct passwd *pwd, char *buf, size_t buflen, struct passwd **result) {
+    static int (*real)(uid_t, struct passwd *, char *, size_t, struct passwd **);
+    if (!real) real = (int (*)(uid_t, struct passwd *, char *, size_t, struct passwd **)) dlsym(RTLD_NEXT, "getpwuid_r");
+    if (g_pw_fail) { *result = NULL; return EIO; }
+    return real(uid, pwd, buf, buflen, result);
 }
 static int g_fixed_time = 0;
 time_t time(time_t *t) {
@@ -329,6 +338,20 @@ static void handle(int nf, char **f, FILE *out) {
         int r = snoopy_util_file_getSmallTextFileContent(p, &content);
         fprintf(out, "ok\t"); put_hexs(out, content); fprintf(out, "\t%d", r >= 0 ? 1 : 0);
         free(content);
+    } else if (!strcmp(f[0], "cfgload") && nf == 2) {
+        /* the whole configuration file through ini.c and configfile.c's option parsers; strings not set by the file print as 01 */
+        vbytes c = parse_bytes(f[1]); char p[600]; snprintf(p, sizeof p, "%s/load.ini", TMPDIR_);
+        write_file(p, c.p, c.n);
+        snoopy_init(); snoopy_configuration_t *CFG = snoopy_configuration_get();
+        snoopy_configfile_load(p);
+        fprintf(out, "ok\t");
+        if (CFG->message_format_malloced) put_hexs(out, CFG->message_format); else fputs("01", out);
+        fputc('\t', out);
+        if (CFG->filter_chain_malloced) put_hexs(out, CFG->filter_chain); else fputs("01", out);
+        fputc('\t', out);
+        if (CFG->syslog_ident_format_malloced) put_hexs(out, CFG->syslog_ident_format); else fputs("01", out);
+        fprintf(out, "\t%zu\t%zu\t%d", CFG->log_message_max_length, CFG->datasource_message_max_length, CFG->error_logging_enabled == SNOOPY_TRUE ? 1 : 0);
+        snoopy_cleanup();
     } else if (!strcmp(f[0], "cgroup") && nf == 4) {
         /* cgroup size arg content(~ = unreadable) : /proc/<pid>/cgroup scripted, pid fixed */
         size_t sz = strtoull(f[1], 0, 10); vbytes a = parse_bytes(f[2]);
@@ -348,13 +371,15 @@ static void handle(int nf, char **f, FILE *out) {
         int r = snoopy_datasourceregistry_callByName("rpname", buf, sz, "");
         g_stat_active = 0; g_fixed_pid = 0;
         put_buf(out, buf, sz, r, 1);
-    } else if (!strcmp(f[0], "ds") && nf == 7) {
+    } else if ((!strcmp(f[0], "ds") || !strcmp(f[0], "dspwfail")) && nf == 7) {
+        g_pw_fail = f[0][2] == 'p';     /* dspwfail: getpwuid_r reports an error (EIO) */
         /* ds name size arg file argv env : any registered data source, observed only */
         vbytes nm = parse_bytes(f[1]), a = parse_bytes(f[3]); size_t sz = strtoull(f[2], 0, 10);
         world(f[4], f[5], f[6]);
         g_fixed_time = 0;
         char *buf = malloc(sz); buf[0] = 0;
         int r = snoopy_datasourceregistry_doesNameExist(nm.p) ? snoopy_datasourceregistry_callByName(nm.p, buf, sz, exact(a)) : -2;
+        g_pw_fail = 0;
         snoopy_cleanup();
         size_t n = strnlen(buf, sz);
         if (n >= sz) fprintf(out, "unterminated"); else fprintf(out, "ok\t%zu\t%d", n, r < 0 ? -1 : 0);
